@@ -93,11 +93,15 @@ func (c *gengoCtx) Writer() SnippetWriter {
 }
 
 func (c *gengoCtx) Execute(ctx corecontext.Context, generators ...Generator) error {
+	// gengo.sum is written where it is looked for, whatever order the packages were loaded in
+	sumDir := ""
+
 	if c.args.All {
 		for pkgPath, direct := range c.universe.LocalPkgPaths() {
 			if direct {
 				mod := c.universe.Package(pkgPath).Module()
 				if mod != nil {
+					sumDir = mod.Dir
 					c.sumFile, _ = sumfile.Load(mod.Dir)
 				}
 				break
@@ -118,8 +122,8 @@ func (c *gengoCtx) Execute(ctx corecontext.Context, generators ...Generator) err
 	if c.args.All {
 		sumFile := c.universe.SumFile()
 
-		if c.sumFile != nil {
-			sumFile.Dir = c.sumFile.Dir
+		if sumDir != "" {
+			sumFile.Dir = sumDir
 		}
 
 		return sumFile.Save()
